@@ -24,6 +24,8 @@ TEMPLATES = {
     'nested_func': 'def f({0}):\n    {1} = 1\n    def g({2}):\n        return {0} + {1} + {3}\n    return g\n',
     'global_nonlocal': 'def f():\n    {0} = 1\n    def g():\n        nonlocal {0}\n        global {1}\n        {0} = {1} = {2}\n    return g\n',
     'class_body': 'class K({0}):\n    {1} = {2}\n    def m(self):\n        return {1} + {3}\n',
+    'lambda_kwdefault': 'def f({0}):\n    return lambda {1}, *, {2}={3}: {1} + {2}\n',
+    'lambda_in_genexp': 'def f({0}):\n    return ((lambda *, {1}={2}: {1}) for {3} in {0})\n',
     'lambda_': '{0} = lambda {1}, {2}={3}: {1} + {2} + {0}\n',
     'genexp': 'def f({0}):\n    return ({1} for {1} in {2} if {3})\n',
     'genexp_call_iter': 'def f({0}):\n    return ({1} for {1} in range({2}) if {3})\n',
